@@ -47,6 +47,10 @@ CHECKS = {
   text="Seeded concurrent rounds (4-32 goroutines pushing and deleting distinct referrers of 1-3 subjects through one Repository against a spec-following registry model without the Referrers API, with seeded delays and injected failures of the n-th index GET/PUT/DELETE, dirty pre-existing indexes, SkipReferrersGC on and off, mid-run capability flips). At quiescence Referrers/Predecessors must equal the acknowledged live set and the model's own referrers computation; no unexcused dangling or dirty index may remain; every failed index DELETE must be reported as a referrers-index-delete error after the new index is in place; the detected capability never changes; the same rounds run under the Go race detector.",
   note="Trusts regmodel as the spec-following registry and its ReferrersOf as the API answer. Acknowledged means nil, or for push a ReferrersError with IsReferrersIndexDelete; operations returning other errors are unjudged. Interleavings are sampled; distinct per-tag batch traces are counted. A hang verdict is reached only from goroutine states, never from the clock.",
   tech="runtime monitoring: concurrent stress with fault and latency injection at the HTTP boundary, quiescence oracle, race detector"),
+ "C15": dict(cat="exploration",
+  text="The real Repository.Tags, Registry.Repositories, Repository.Referrers (API and referrers-tag paths) and oci Store/ReadOnlyStore.Tags run on seeded cases against a scripted loopback registry that varies item list, last, client n, server page-size sequence including empty pages, n honoured or ignored, continuation style, link-target forms and spellings, rel values, extra link parameters, artifactType filter modes, a callback failing on its j-th call, MaxMetadataBytes with bodies sized limit-1/limit/limit+1/>>limit, and Content-Length vs chunked. The callback concatenation is compared with the registry's own list, traffic after the final page or after a callback failure is refused, bytes read from every 200 body are counted in the client RoundTripper, and an over-long document must give an error with exactly the earlier pages.",
+  note="The scripted registry is trusted and self-consistent. A body over the limit only through white space after a JSON value that fits is not judged for error-vs-success (counted). Every link value sent carries rel. Cases are sampled, not exhaustive.",
+  tech="runtime monitoring: scripted paginating registry over loopback HTTP, counting resp.Body wrapper, model comparison"),
 }
 
 PENDING_REASON = "check under construction in this session (not yet claimed); the technique applies"
